@@ -64,6 +64,7 @@ def check_variant(prog, variant, m, text0=None):
             continue
         i2 = {}
         st2, b2, d2 = common.compiled_vs(cols, exp, text2, pred2, rules2, quirk_prog=None,
+                                         cols_any_order=True,
                                          info=i2)
         labels = []
         sql_differs = i0.get('sql') != i2.get('sql')
